@@ -112,3 +112,26 @@ def _saver_run(self):
 
 Saver = _mk('Saver', __name__, fields=('kind', 'n'), extra={'run': _saver_run})
 JSaver = _mk('JSaver', __name__, fields=('kind', 'n'), extra={'run': _saver_run}, cache=JsonCache())
+
+
+def _ksaver_run(self):
+    """Like Saver, but when the Lab context carries 'kill_at' = k the worker process kills itself
+    (SIGKILL) at the k-th line of cache.py / storage.py executed afterwards, i.e. during the save
+    of this very result.  Only meaningful under a process backend."""
+    WORLD.rec('start', (type(self).__module__, type(self).__qualname__, self.cache_key))
+    k = (self.context or {}).get('kill_at')
+    if k:
+        import os
+        import signal
+        from .faults import LineInjector, in_files
+
+        def die():
+            os.kill(os.getpid(), signal.SIGKILL)
+            return RuntimeError('unreachable')
+        inj = LineInjector(in_files('cache.py', 'storage.py'), at=k, exc_factory=die)
+        inj.__enter__()
+    epoch = (self.context or {}).get('epoch', WORLD.epoch)
+    return ('R', 'Saver', self.kind, self.n, epoch, _result_payload(self.kind, self.n))
+
+
+KSaver = _mk('KSaver', __name__, fields=('kind', 'n'), extra={'run': _ksaver_run})
